@@ -1,5 +1,6 @@
-(* Proofs/PickleFacts.v — lemmas about Model/Pickle.v (C09). *)
-From Coq Require Import List ZArith Bool Arith QArith Qabs Lia ZifyBool.
+(* Proofs/PickleFacts.v — lemmas about Model/Pickle.v (C09): float32 rounding on Q, integer casts,
+   __getstate__/__setstate__ round trip, __eq__. *)
+From Coq Require Import List ZArith Bool Arith QArith Qabs Qpower Lia ZifyBool Lqa.
 From Koala Require Import Model.Pickle Gen.PickleGen.
 Import ListNotations.
 Open Scope Z_scope.
@@ -17,6 +18,829 @@ Lemma gen_dtypes_eq :
   gen_restored_index_dtype = I64 /\ gen_restored_crossing_dtype = I64.
 Proof. repeat split; reflexivity. Qed.
 
+(* ---------------------------------------------------------------- rne *)
+Lemma rne_spec : forall n d, 0 < d -> - d <= 2 * (rne n d * d - n) <= d.
+Proof.
+  intros n d Hd. unfold rne.
+  pose proof (Z.div_mod n d ltac:(lia)) as E.
+  pose proof (Z.mod_pos_bound n d Hd) as B.
+  destruct (Z.compare_spec (2 * (n mod d)) d) as [C|C|C].
+  - destruct (Z.even (n / d)); nia.
+  - nia.
+  - nia.
+Qed.
+
+Lemma rne_exact : forall k d, 0 < d -> rne (k * d) d = k.
+Proof.
+  intros k d Hd. unfold rne.
+  rewrite Z.div_mul by lia. rewrite Z.mod_mul by lia.
+  destruct (Z.compare_spec (2 * 0) d); lia.
+Qed.
+
+(* ---------------------------------------------------------------- Qpow2 *)
+Lemma pow2_pos : forall k, 0 <= k -> 0 < 2 ^ k.
+Proof. intros; apply Z.pow_pos_nonneg; lia. Qed.
+
+Lemma Qpow2_Qpower : forall k, (Qpow2 k == 2 ^ k)%Q.
+Proof.
+  intros k. unfold Qpow2. destruct (Z.leb_spec 0 k) as [H|H].
+  - rewrite Zpower_Qpower by lia. reflexivity.
+  - replace k with (- (- k)) at 2 by lia.
+    rewrite Qpower_opp. rewrite <- (Zpower_Qpower 2 (- k)) by lia.
+    pose proof (pow2_pos (- k) ltac:(lia)) as P.
+    unfold Qeq, Qinv, inject_Z. simpl.
+    destruct (2 ^ (- k)) as [|p|p] eqn:E; try lia.
+    simpl. lia.
+Qed.
+
+Lemma Qpow2_pos : forall k, (0 < Qpow2 k)%Q.
+Proof. intros. rewrite Qpow2_Qpower. apply Qpower_0_lt. reflexivity. Qed.
+
+Lemma Qpow2_add : forall a b, (Qpow2 (a + b) == Qpow2 a * Qpow2 b)%Q.
+Proof. intros. rewrite !Qpow2_Qpower. apply Qpower_plus. discriminate. Qed.
+
+Lemma Qpow2_inv : forall k, (Qpow2 (- k) * Qpow2 k == 1)%Q.
+Proof. intros. rewrite <- Qpow2_add. replace (- k + k) with 0 by lia. reflexivity. Qed.
+
+Lemma Qpow2_le : forall a b, a <= b -> (Qpow2 a <= Qpow2 b)%Q.
+Proof. intros. rewrite !Qpow2_Qpower. apply Qpower_le_compat_l; [lia | discriminate]. Qed.
+
+(* ---------------------------------------------------------------- rounding error *)
+Lemma rneQ_err : forall m : Q, (Qabs (inject_Z (rneQ m) - m) <= 1 # 2)%Q.
+Proof.
+  intros [n d]. unfold rneQ. simpl.
+  pose proof (rne_spec n (Zpos d) ltac:(lia)) as R.
+  unfold Qabs, Qle, Qminus, Qplus, Qopp, inject_Z; simpl. lia.
+Qed.
+
+Lemma round32_err : forall x : Q,
+  (Qabs (round32 x - x) <= Qpow2 (f32_qexp x - 1))%Q.
+Proof.
+  intros x. unfold round32.
+  destruct (Z.eqb_spec (Qnum x) 0) as [Hz|Hz].
+  - assert (0 - x == 0)%Q as E by (destruct x as [n d]; simpl in Hz; subst n; reflexivity).
+    rewrite E. simpl Qabs.
+    apply Qlt_le_weak, Qpow2_pos.
+  - set (q := f32_qexp x).
+    set (m := (x * Qpow2 (- q))%Q).
+    assert (x == m * Qpow2 q)%Q as Hx.
+    { unfold m. rewrite <- Qmult_assoc, Qpow2_inv. ring. }
+    setoid_replace (inject_Z (rneQ m) * Qpow2 q - x)%Q with ((inject_Z (rneQ m) - m) * Qpow2 q)%Q
+      by (rewrite Hx at 1; ring).
+    rewrite Qabs_Qmult.
+    rewrite (Qabs_pos (Qpow2 q)) by (apply Qlt_le_weak, Qpow2_pos).
+    replace (q - 1) with (-1 + q) by lia. rewrite Qpow2_add.
+    apply Qmult_le_compat_r; [ | apply Qlt_le_weak, Qpow2_pos].
+    apply rneQ_err.
+Qed.
+
+(* ---------------------------------------------------------------- exponent *)
+Lemma ilog2_frac_lower : forall n d, 0 < n -> 0 < d -> pow2_le (ilog2_frac n d) n d = true.
+Proof.
+  intros n d Hn Hd. unfold ilog2_frac.
+  destruct (pow2_le (Z.log2 n - Z.log2 d) n d) eqn:E; [exact E|].
+  pose proof (Z.log2_spec n Hn) as [Ln _].
+  pose proof (Z.log2_spec d Hd) as [_ Ld].
+  pose proof (Z.log2_nonneg n). pose proof (Z.log2_nonneg d).
+  set (a := Z.log2 n) in *. set (b := Z.log2 d) in *.
+  unfold pow2_le. destruct (Z.leb_spec 0 (a - b - 1)) as [H1|H1].
+  - (* 2^(a-b-1) * d <= n *)
+    assert (2 ^ a = 2 ^ (a - b - 1) * 2 ^ (Z.succ b)) as P
+      by (rewrite <- Z.pow_add_r by lia; f_equal; lia).
+    pose proof (pow2_pos (a - b - 1) H1). apply Z.leb_le. nia.
+  - replace (- (a - b - 1)) with (Z.succ b - a) by lia.
+    assert (2 ^ (Z.succ b) = 2 ^ a * 2 ^ (Z.succ b - a)) as P
+      by (rewrite <- Z.pow_add_r by lia; f_equal; lia).
+    pose proof (pow2_pos (Z.succ b - a) ltac:(lia)). apply Z.leb_le. nia.
+Qed.
+
+(* 2^e <= n/d <= 2^k  ->  e <= k *)
+Lemma pow2_le_upper : forall e n d k, 0 < d -> 0 <= k -> pow2_le e n d = true -> n <= 2 ^ k * d -> e <= k.
+Proof.
+  intros e n d k Hd Hk H Hn.
+  destruct (Z.leb_spec e k) as [|Hlt]; [assumption|exfalso].
+  unfold pow2_le in H. destruct (Z.leb_spec 0 e) as [He|He]; [|lia].
+  apply Z.leb_le in H.
+  assert (2 ^ (k + 1) <= 2 ^ e) by (apply Z.pow_le_mono_r; lia).
+  rewrite Z.pow_add_r in H0 by lia.
+  pose proof (pow2_pos k Hk). nia.
+Qed.
+
+Lemma f32_qexp_le : forall (x : Q) k, 0 <= k -> (Qabs x <= Qpow2 k)%Q -> f32_qexp x <= Z.max (k - 23) (-149).
+Proof.
+  intros x k Hk Hx. unfold f32_qexp.
+  destruct (Z.eq_dec (Qnum x) 0) as [Hz|Hz].
+  - rewrite Hz. change (Z.abs 0) with 0. unfold ilog2_frac. change (Z.log2 0) with 0.
+    (* n = 0: ilog2_frac 0 d = 0 - log2 d (- 1) <= 0 *)
+    pose proof (Z.log2_nonneg (Zpos (Qden x))).
+    destruct (pow2_le _ _ _); lia.
+  - pose proof (ilog2_frac_lower (Z.abs (Qnum x)) (Zpos (Qden x)) ltac:(lia) ltac:(lia)) as L.
+    assert (Z.abs (Qnum x) <= 2 ^ k * Zpos (Qden x)) as U.
+    { unfold Qpow2 in Hx. destruct (Z.leb_spec 0 k); [|lia].
+      destruct x as [n d]. unfold Qabs, Qle, inject_Z in Hx. simpl in *. rewrite Z.mul_1_r in Hx. exact Hx. }
+    assert (0 < Z.pos (Qden x)) as Hd by lia.
+    pose proof (pow2_le_upper _ _ _ k Hd Hk L U). lia.
+Qed.
+
+(* |x| <= 2  ->  |round32 x - x| <= 2^-23 *)
+Lemma round32_err_le2 : forall x : Q, (Qabs x <= 2)%Q -> (Qabs (round32 x - x) <= Qpow2 (-23))%Q.
+Proof.
+  intros x Hx.
+  eapply Qle_trans; [apply round32_err|].
+  apply Qpow2_le.
+  pose proof (f32_qexp_le x 1 ltac:(lia) Hx). lia.
+Qed.
+
+(* general: |x| <= 2^k (k >= 0) -> error <= 2^(max(k-24,-150)) *)
+Lemma round32_err_pow2 : forall (x : Q) k, 0 <= k -> (Qabs x <= Qpow2 k)%Q ->
+  (Qabs (round32 x - x) <= Qpow2 (Z.max (k - 24) (-150)))%Q.
+Proof.
+  intros x k Hk Hx.
+  eapply Qle_trans; [apply round32_err|].
+  apply Qpow2_le.
+  pose proof (f32_qexp_le x k Hk Hx). lia.
+Qed.
+
+Lemma pow2_le_Q : forall e (x : Q), Qnum x <> 0 ->
+  pow2_le e (Z.abs (Qnum x)) (Zpos (Qden x)) = true -> (Qpow2 e <= Qabs x)%Q.
+Proof.
+  intros e [n d] Hn H. simpl in *. unfold pow2_le in H. unfold Qpow2.
+  destruct (Z.leb_spec 0 e) as [He|He]; apply Z.leb_le in H.
+  - unfold Qle, Qabs, inject_Z. cbn [Qnum Qden]. lia.
+  - pose proof (pow2_pos (- e) ltac:(lia)) as P.
+    unfold Qle, Qabs. cbn [Qnum Qden]. rewrite Z2Pos.id by assumption. lia.
+Qed.
+
+(* relative error of the float32 cast in the normal range: at most 2^-24 *)
+Lemma round32_rel_err : forall x : Q, (Qpow2 (-126) <= Qabs x)%Q ->
+  (Qabs (round32 x - x) <= Qpow2 (-24) * Qabs x)%Q.
+Proof.
+  intros x Hx.
+  assert (Qnum x <> 0) as Hn.
+  { intros E. destruct x as [n d]. simpl in E. subst n. vm_compute in Hx. apply Hx. reflexivity. }
+  eapply Qle_trans; [apply round32_err|].
+  pose proof (ilog2_frac_lower (Z.abs (Qnum x)) (Zpos (Qden x)) ltac:(lia) ltac:(lia)) as L.
+  apply pow2_le_Q in L; [|assumption].
+  unfold f32_qexp. set (e := ilog2_frac (Z.abs (Qnum x)) (Z.pos (Qden x))) in *.
+  destruct (Z.max_spec (e - 23) (-149)) as [[Hlt ->]|[Hge ->]].
+  - (* subnormal ulp: 2^-150 <= 2^-24 * 2^-126 <= 2^-24 |x| *)
+    change (-149 - 1) with (-24 + -126). rewrite Qpow2_add.
+    apply Qmult_le_l; [apply Qpow2_pos|assumption].
+  - replace (e - 23 - 1) with (-24 + e) by lia. rewrite Qpow2_add.
+    apply Qmult_le_l; [apply Qpow2_pos|assumption].
+Qed.
+
+(* ---------------------------------------------------------------- integer casts *)
+Lemma wrap_id : forall d z, in_range d z = true -> wrap d z = z.
+Proof.
+  intros d z H. unfold wrap, in_range, dt_card in *.
+  destruct d; simpl in *; rewrite Z.mod_small; lia.
+Qed.
+
+Lemma wrap2_id : forall d p, in_range2 d p = true -> wrap2 d p = p.
+Proof.
+  intros d [a b] H. unfold in_range2, wrap2 in *. simpl in *.
+  apply andb_true_iff in H as [Ha Hb]. rewrite !wrap_id by assumption. reflexivity.
+Qed.
+
+Lemma map_wrap2_id : forall d l, forallb (in_range2 d) l = true -> map (wrap2 d) l = l.
+Proof.
+  induction l as [|p l IH]; simpl; intros H; [reflexivity|].
+  apply andb_true_iff in H as [Hp Hl]. rewrite wrap2_id, IH by assumption. reflexivity.
+Qed.
+
+Lemma wrap_in_range : forall d z, in_range d (wrap d z) = true.
+Proof.
+  intros d z. unfold wrap, in_range, dt_card.
+  assert (0 < dt_max d - dt_min d + 1) by (destruct d; simpl; lia).
+  pose proof (Z.mod_pos_bound (z - dt_min d) (dt_max d - dt_min d + 1) H). lia.
+Qed.
+
+(* ---------------------------------------------------------------- dtype selection *)
+Lemma select_index_dtype_thresholds : forall n,
+  select_index_dtype n =
+    if n <=? 255 then Some U8 else if n <=? 65535 then Some U16
+    else if n <=? 4294967295 then Some U32 else if n <=? 18446744073709551615 then Some U64 else None.
+Proof. reflexivity. Qed.
+
+Lemma select_some_fits : forall n d, select_index_dtype n = Some d -> n <= dt_max d /\ dt_min d = 0.
+Proof.
+  intros n d. rewrite select_index_dtype_thresholds.
+  repeat (match goal with |- context [if ?b then _ else _] => destruct b eqn:? end);
+    intros E; inversion E; subst; simpl; lia.
+Qed.
+
+Lemma select_exists : forall n, n <= dt_max U64 -> exists d, select_index_dtype n = Some d.
+Proof.
+  intros n H. rewrite select_index_dtype_thresholds. simpl in H.
+  repeat (match goal with |- context [if ?b then _ else _] => destruct b eqn:? end); eauto; lia.
+Qed.
+
+Lemma select_none : forall n, dt_max U64 < n -> select_index_dtype n = None.
+Proof.
+  intros n H. rewrite select_index_dtype_thresholds. simpl in H.
+  repeat (match goal with |- context [if ?b then _ else _] => destruct b eqn:? end); try reflexivity; lia.
+Qed.
+
+Lemma wf_index_in_range : forall n d p, wf_index n p = true -> n <= dt_max d -> dt_min d = 0 -> in_range2 d p = true.
+Proof.
+  intros n d [a b] H Hn Hm. unfold wf_index, in_range2, in_range in *. simpl in *. lia.
+Qed.
+
+(* ---------------------------------------------------------------- check_fits *)
+Lemma fold_min_ge : forall l x lo, lo <= fold_left Z.min l x <-> lo <= x /\ Forall (fun z => lo <= z) l.
+Proof.
+  induction l as [|a l IH]; simpl; intros x lo.
+  - split; [intros; split; [assumption|constructor] | intros [H _]; exact H].
+  - rewrite IH. split.
+    + intros [H F]. split; [lia|]. constructor; [lia|exact F].
+    + intros [H F]. inversion F; subst. split; [lia|assumption].
+Qed.
+
+Lemma fold_max_le : forall l x hi, fold_left Z.max l x <= hi <-> x <= hi /\ Forall (fun z => z <= hi) l.
+Proof.
+  induction l as [|a l IH]; simpl; intros x hi.
+  - split; [intros; split; [assumption|constructor] | intros [H _]; exact H].
+  - rewrite IH. split.
+    + intros [H F]. split; [lia|]. constructor; [lia|exact F].
+    + intros [H F]. inversion F; subst. split; [lia|assumption].
+Qed.
+
+Lemma check_fits_forallb : forall c0 cs d,
+  check_fits_test (list_min c0 cs) (list_max c0 cs) d = forallb (in_range d) (c0 :: cs).
+Proof.
+  intros c0 cs d. apply eq_true_iff_eq. unfold check_fits_test, list_min, list_max.
+  rewrite andb_true_iff, !Z.leb_le, fold_min_ge, fold_max_le, forallb_forall.
+  split.
+  - intros [[H1 F1] [H2 F2]] z [<-|Hz].
+    + unfold in_range. lia.
+    + rewrite Forall_forall in F1, F2. specialize (F1 z Hz). specialize (F2 z Hz). unfold in_range. lia.
+  - intros H.
+    assert (forall z, In z (c0 :: cs) -> dt_min d <= z <= dt_max d) as H'
+      by (intros z Hz; specialize (H z Hz); unfold in_range in H; lia).
+    repeat split; try (apply (H' c0); left; reflexivity);
+      apply Forall_forall; intros z Hz; apply H'; right; exact Hz.
+Qed.
+
+Lemma forallb_flat : forall d l, forallb (in_range d) (flat l) = forallb (in_range2 d) l.
+Proof.
+  induction l as [|[a b] l IH]; [reflexivity|].
+  unfold flat in *. simpl. rewrite IH. unfold in_range2. simpl. rewrite andb_assoc. reflexivity.
+Qed.
+
+Lemma fits_crossing_eq : forall l d,
+  match flat l with [] => true | c0 :: cs => check_fits_test (list_min c0 cs) (list_max c0 cs) d end
+  = forallb (in_range2 d) l.
+Proof.
+  intros l d. rewrite <- forallb_flat. destruct (flat l) as [|c0 cs]; [reflexivity|].
+  apply check_fits_forallb.
+Qed.
+
+(* ---------------------------------------------------------------- getstate *)
+Lemma getstate_cache_independent : forall c L, getstate (with_cache c L) = getstate L.
+Proof. intros c [p pd i id cr cd ch]. reflexivity. Qed.
+
+Lemma getstate_unfold : forall L,
+  getstate L =
+  match select_index_dtype (n_vertices L) with
+  | None => GSTooManyVertices
+  | Some d =>
+    if forallb (in_range2 I8) (l_cross L) then
+      if existsb overflows2 (l_pos L) then GSPosOverflow
+      else GSOk (mkT (map round32_2 (l_pos L)) (map (wrap2 d) (l_idx L)) d (map (wrap2 I8) (l_cross L)) I8)
+    else GSCrossingRange
+  end.
+Proof.
+  intros L. unfold getstate. destruct (select_index_dtype (n_vertices L)); [|reflexivity].
+  unfold crossing_dtype. rewrite fits_crossing_eq. reflexivity.
+Qed.
+
+Lemma getstate_too_many : forall L, dt_max U64 < n_vertices L -> getstate L = GSTooManyVertices.
+Proof. intros L H. rewrite getstate_unfold, select_none by assumption. reflexivity. Qed.
+
+Lemma getstate_crossing_range : forall L,
+  n_vertices L <= dt_max U64 -> forallb (in_range2 I8) (l_cross L) = false -> getstate L = GSCrossingRange.
+Proof.
+  intros L H C. rewrite getstate_unfold. destruct (select_exists _ H) as [d ->]. rewrite C. reflexivity.
+Qed.
+
+(* the state never holds a wrapped crossing: whenever getstate succeeds the int8 values are the original values *)
+Lemma getstate_ok_inv : forall L t, getstate L = GSOk t ->
+  s_cross t = l_cross L /\ s_cross_dt t = I8 /\ s_pos t = map round32_2 (l_pos L)
+  /\ select_index_dtype (n_vertices L) = Some (s_idx_dt t) /\ s_idx t = map (wrap2 (s_idx_dt t)) (l_idx L).
+Proof.
+  intros L t. rewrite getstate_unfold.
+  destruct (select_index_dtype (n_vertices L)) as [d|]; [|discriminate].
+  destruct (forallb (in_range2 I8) (l_cross L)) eqn:C; [|discriminate].
+  destruct (existsb overflows2 (l_pos L)); [discriminate|].
+  intros E. inversion E; subst; simpl. rewrite map_wrap2_id by assumption. auto.
+Qed.
+
+Definition restored_of (L : lat) : lat :=
+  mkLat (map round32_2 (l_pos L)) F32 (l_idx L) I64 (l_cross L) I64 fresh_cache.
+
+Lemma roundtrip_values : forall L,
+  wf_lat L = true ->
+  n_vertices L <= dt_max U64 ->
+  forallb (in_range2 I64) (l_idx L) = true ->
+  forallb (in_range2 I8) (l_cross L) = true ->
+  existsb overflows2 (l_pos L) = false ->
+  roundtrip L = Some (restored_of L).
+Proof.
+  intros L W HV HI HC HO. unfold roundtrip. rewrite getstate_unfold.
+  destruct (select_exists _ HV) as [d Hd]. rewrite Hd, HC, HO.
+  unfold setstate, init, restored_of. simpl.
+  destruct (select_some_fits _ _ Hd) as [Hfit Hmin].
+  unfold wf_lat in W. rewrite !andb_true_iff in W. destruct W as [[[_ Wi] _] _].
+  assert (forallb (in_range2 d) (l_idx L) = true) as Hid.
+  { rewrite forallb_forall in *. intros p Hp. eapply wf_index_in_range; eauto. }
+  rewrite (map_wrap2_id d) by assumption.
+  rewrite (map_wrap2_id I8) by assumption.
+  rewrite (map_wrap2_id I64 (l_idx L)) by assumption.
+  rewrite (map_wrap2_id I64 (l_cross L)); [reflexivity|].
+  rewrite forallb_forall in *. intros p Hp. specialize (HC p Hp).
+  unfold in_range2, in_range in *. simpl in *. lia.
+Qed.
+
+(* full strength: the round trip succeeds exactly under these conditions *)
+Lemma roundtrip_none_iff : forall L,
+  roundtrip L = None <->
+  (dt_max U64 < n_vertices L \/ forallb (in_range2 I8) (l_cross L) = false \/ existsb overflows2 (l_pos L) = true).
+Proof.
+  intros L. unfold roundtrip. rewrite getstate_unfold.
+  destruct (Z.leb_spec (n_vertices L) (dt_max U64)) as [H|H].
+  - destruct (select_exists _ H) as [d ->].
+    destruct (forallb (in_range2 I8) (l_cross L)); destruct (existsb overflows2 (l_pos L));
+      split; intros; try discriminate; try reflexivity; auto;
+      repeat match goal with H : _ \/ _ |- _ => destruct H end; try discriminate; lia.
+  - rewrite select_none by assumption. split; auto.
+Qed.
+
+Lemma roundtrip_f32_exact : forall L,
+  (forall p, In p (l_pos L) -> round32_2 p = p) -> l_pos (restored_of L) = l_pos L.
+Proof.
+  intros L H. unfold restored_of. simpl. rewrite <- (map_id (l_pos L)) at 2.
+  apply map_ext_in. exact H.
+Qed.
+
+(* ---------------------------------------------------------------- lists / broadcasting *)
+Lemma all2_sym : forall {X} (f g : X -> X -> bool), (forall a b, f a b = g b a) ->
+  forall A B, all2 f A B = all2 g B A.
+Proof.
+  intros X f g H. induction A as [|a A IH]; destruct B as [|b B]; simpl; try reflexivity.
+  rewrite H, IH. reflexivity.
+Qed.
+
+Lemma forallb_ext' : forall {X} (f g : X -> bool) l, (forall a, f a = g a) -> forallb f l = forallb g l.
+Proof. intros X f g l H. induction l; simpl; [reflexivity|]. rewrite H, IHl. reflexivity. Qed.
+
+Lemma bcast_all_sym : forall {X} (f g : X -> X -> bool), (forall a b, f a b = g b a) ->
+  forall A B, bcast_all f A B = bcast_all g B A.
+Proof.
+  intros X f g H A B. unfold bcast_all. rewrite (Nat.eqb_sym (length B)).
+  destruct (Nat.eqb_spec (length A) (length B)) as [E|E].
+  - rewrite (all2_sym f g H). reflexivity.
+  - destruct A as [|a [|a' A]]; destruct B as [|b [|b' B]]; simpl in *; try reflexivity; try lia;
+      try (rewrite !H; reflexivity);
+      try (f_equal; rewrite !H; f_equal; try (f_equal); apply forallb_ext'; intros; apply H).
+Qed.
+
+Lemma bcast_all_same_len : forall {X} (f : X -> X -> bool) A B,
+  length A = length B -> bcast_all f A B = Some (all2 f A B).
+Proof. intros X f A B E. unfold bcast_all. rewrite E, Nat.eqb_refl. reflexivity. Qed.
+
+Lemma all2_Forall2 : forall {X} (f : X -> X -> bool) A B, length A = length B ->
+  (all2 f A B = true <-> Forall2 (fun a b => f a b = true) A B).
+Proof.
+  intros X f. induction A as [|a A IH]; destruct B as [|b B]; simpl; intros E; try discriminate.
+  - split; [constructor|reflexivity].
+  - injection E as E. rewrite andb_true_iff, (IH B E). split.
+    + intros [H1 H2]. constructor; assumption.
+    + intros H. inversion H; subst. split; assumption.
+Qed.
+
+Lemma zpair_eqb_eq : forall a b, zpair_eqb a b = true <-> a = b.
+Proof.
+  intros [a1 a2] [b1 b2]. unfold zpair_eqb. simpl. rewrite andb_true_iff, !Z.eqb_eq.
+  split; [intros [-> ->]; reflexivity | intros E; inversion E; auto].
+Qed.
+
+Lemma zpair_eqb_sym : forall a b, zpair_eqb a b = zpair_eqb b a.
+Proof. intros [a1 a2] [b1 b2]. unfold zpair_eqb. simpl. rewrite (Z.eqb_sym a1), (Z.eqb_sym a2). reflexivity. Qed.
+
+Lemma Forall2_eq : forall {X} (A B : list X), Forall2 eq A B <-> A = B.
+Proof.
+  intros X. induction A as [|a A IH]; destruct B as [|b B]; split; intros H; try inversion H; subst; try constructor; auto.
+  - f_equal. apply IH. assumption.
+  - apply IH. reflexivity.
+Qed.
+
+Lemma all2_zpair_eq : forall A B, length A = length B -> (all2 zpair_eqb A B = true <-> A = B).
+Proof.
+  intros A B E. rewrite (all2_Forall2 _ _ _ E), <- Forall2_eq.
+  split; intros H; induction H; constructor; auto; apply zpair_eqb_eq; assumption.
+Qed.
+
+(* ---------------------------------------------------------------- __eq__ *)
+(* squared Euclidean displacement, and "displaced by at most a hundredth of the mean spacing 1/sqrt(nv)" *)
+Definition dist2 (a b : qpair) : Q :=
+  ((fst a - fst b) * (fst a - fst b) + (snd a - snd b) * (snd a - snd b))%Q.
+Definition within (nv : Z) (a b : qpair) : Prop := (dist2 a b * inject_Z (10000 * nv) <= 1)%Q.
+
+Lemma close2_iff : forall nv a b, close2 nv a b = true <-> within nv a b.
+Proof. intros. unfold close2, within, dist2. apply Qle_bool_iff. Qed.
+
+Lemma close2_sym : forall nv a b, close2 nv a b = close2 nv b a.
+Proof.
+  intros nv a b. unfold close2. apply Qleb_comp; [|reflexivity]. ring.
+Qed.
+
+Lemma close2_refl : forall nv a, 0 <= nv -> close2 nv a a = true.
+Proof.
+  intros nv a H. unfold close2. apply Qle_bool_iff.
+  setoid_replace (((fst a - fst a) * (fst a - fst a) + (snd a - snd a) * (snd a - snd a)) * inject_Z (10000 * nv))%Q
+    with 0%Q by ring. discriminate.
+Qed.
+
+Definition shaped (L : lat) : Prop := length (l_cross L) = length (l_idx L).
+
+Lemma shapes_differ_false : forall A B, shapes_differ A B = false <->
+  length (l_pos A) = length (l_pos B) /\ length (l_idx A) = length (l_idx B).
+Proof.
+  intros A B. unfold shapes_differ. rewrite orb_false_iff, !negb_false_iff, !Nat.eqb_eq. reflexivity.
+Qed.
+
+Lemma lat_eq_total : forall A B, shaped A -> shaped B -> exists b, lat_eq A B = Some b.
+Proof.
+  intros A B SA SB. unfold lat_eq. destruct (shapes_differ A B) eqn:S; [eexists; reflexivity|].
+  apply shapes_differ_false in S as [Sp Si]. unfold eq_core, shaped in *.
+  rewrite !bcast_all_same_len by congruence. eexists; reflexivity.
+Qed.
+
+Lemma py_eq_total : forall A o, shaped A -> (forall B, o = PyLattice B -> shaped B) ->
+  exists b, py_eq A o = Some b /\ py_ne A o = Some (negb b).
+Proof.
+  intros A [B|] SA SB; unfold py_ne; simpl.
+  - destruct (lat_eq_total A B SA (SB B eq_refl)) as [b ->]. eexists; split; reflexivity.
+  - eexists; split; reflexivity.
+Qed.
+
+Lemma py_eq_other : forall A, py_eq A PyOther = Some false /\ py_ne A PyOther = Some true.
+Proof. intros; split; reflexivity. Qed.
+
+Lemma lat_eq_sym : forall A B, lat_eq A B = lat_eq B A.
+Proof.
+  intros A B. unfold lat_eq.
+  assert (shapes_differ A B = shapes_differ B A) as S
+    by (unfold shapes_differ; rewrite (Nat.eqb_sym (length (l_pos A))), (Nat.eqb_sym (length (l_idx A))); reflexivity).
+  rewrite <- S. destruct (shapes_differ A B) eqn:D; [reflexivity|].
+  apply shapes_differ_false in D as [Sp Si]. unfold eq_core.
+  assert (n_vertices A = n_vertices B) as N by (unfold n_vertices; congruence).
+  rewrite (bcast_all_sym (close2 (n_vertices A)) (close2 (n_vertices B))) by (intros; rewrite N; apply close2_sym).
+  rewrite (bcast_all_sym zpair_eqb zpair_eqb zpair_eqb_sym (l_idx A)).
+  rewrite (bcast_all_sym zpair_eqb zpair_eqb zpair_eqb_sym (l_cross A)).
+  reflexivity.
+Qed.
+
+Lemma lat_eq_refl : forall A, shaped A -> lat_eq A A = Some true.
+Proof.
+  intros A SA. unfold lat_eq.
+  assert (shapes_differ A A = false) as -> by (apply shapes_differ_false; auto).
+  unfold eq_core. rewrite !bcast_all_same_len by reflexivity.
+  assert (forall l, all2 zpair_eqb l l = true) as Z
+    by (induction l; simpl; [reflexivity|]; rewrite IHl, andb_true_r; apply zpair_eqb_eq; reflexivity).
+  rewrite !Z.
+  assert (all2 (close2 (n_vertices A)) (l_pos A) (l_pos A) = true) as ->; [|reflexivity].
+  assert (0 <= n_vertices A) as N by (unfold n_vertices; lia).
+  induction (l_pos A); simpl; [reflexivity|]. rewrite close2_refl by assumption. assumption.
+Qed.
+
+(* exact characterisation of "compares equal" *)
+Lemma lat_eq_true_iff : forall A B, shaped A -> shaped B ->
+  (lat_eq A B = Some true <->
+   length (l_pos A) = length (l_pos B) /\ l_idx A = l_idx B /\ l_cross A = l_cross B /\
+   Forall2 (within (n_vertices A)) (l_pos A) (l_pos B)).
+Proof.
+  intros A B SA SB. unfold lat_eq, shaped in *.
+  destruct (shapes_differ A B) eqn:D.
+  - split; [discriminate|]. intros (Hp & Hi & _ & _).
+    assert (shapes_differ A B = false) by (apply shapes_differ_false; split; congruence). congruence.
+  - apply shapes_differ_false in D as [Sp Si].
+    assert (length (l_cross A) = length (l_cross B)) as Sc by congruence.
+    unfold eq_core. rewrite !bcast_all_same_len by assumption.
+    split.
+    + intros E. injection E as E. rewrite !andb_true_iff in E. destruct E as [[Ep Ei] Ec].
+      apply all2_zpair_eq in Ei, Ec; try assumption.
+      apply all2_Forall2 in Ep; try assumption.
+      repeat split; try assumption.
+      clear -Ep. induction Ep; constructor; auto. apply close2_iff. assumption.
+    + intros (_ & Hi & Hc & Hp). f_equal. rewrite !andb_true_iff. repeat split.
+      * apply all2_Forall2; [assumption|]. clear -Hp. induction Hp; constructor; auto. apply close2_iff. assumption.
+      * apply all2_zpair_eq; assumption.
+      * apply all2_zpair_eq; assumption.
+Qed.
+
+Lemma lat_eq_detects_edge : forall A B, shaped A -> shaped B -> l_idx A <> l_idx B -> lat_eq A B = Some false.
+Proof.
+  intros A B SA SB H. destruct (lat_eq_total A B SA SB) as [[|] E]; [|assumption].
+  apply lat_eq_true_iff in E; try assumption. tauto.
+Qed.
+
+Lemma lat_eq_detects_crossing : forall A B, shaped A -> shaped B -> l_cross A <> l_cross B -> lat_eq A B = Some false.
+Proof.
+  intros A B SA SB H. destruct (lat_eq_total A B SA SB) as [[|] E]; [|assumption].
+  apply lat_eq_true_iff in E; try assumption. tauto.
+Qed.
+
+Lemma lat_eq_detects_size : forall A B, shaped A -> shaped B ->
+  (length (l_pos A) <> length (l_pos B) \/ length (l_idx A) <> length (l_idx B)) -> lat_eq A B = Some false.
+Proof.
+  intros A B SA SB H. destruct (lat_eq_total A B SA SB) as [[|] E]; [|assumption].
+  apply lat_eq_true_iff in E; try assumption. destruct E as (E1 & E2 & _). rewrite E2 in H. tauto.
+Qed.
+
+(* a vertex displaced by more than (1/sqrt V)/100, i.e. dist^2 * 10000 * V > 1, is detected *)
+Lemma lat_eq_detects_displacement : forall A B i, shaped A -> shaped B ->
+  (i < length (l_pos A))%nat -> (i < length (l_pos B))%nat ->
+  ~ within (n_vertices A) (nth i (l_pos A) (0, 0)%Q) (nth i (l_pos B) (0, 0)%Q) ->
+  lat_eq A B = Some false.
+Proof.
+  intros A B i SA SB HA HB H. destruct (lat_eq_total A B SA SB) as [[|] E]; [|assumption].
+  exfalso. apply H. apply lat_eq_true_iff in E; try assumption. destruct E as (_ & _ & _ & F).
+  clear -F HA. revert i HA. induction F; intros i Hi; simpl in *; [lia|].
+  destruct i; [assumption|]. apply IHF. lia.
+Qed.
+
+(* ... and nothing else is: same edges, same crossings, every vertex within the tolerance -> equal *)
+Lemma lat_eq_no_false_alarm : forall A B, shaped A -> shaped B ->
+  length (l_pos A) = length (l_pos B) -> l_idx A = l_idx B -> l_cross A = l_cross B ->
+  (forall i, (i < length (l_pos A))%nat ->
+     within (n_vertices A) (nth i (l_pos A) (0, 0)%Q) (nth i (l_pos B) (0, 0)%Q)) ->
+  lat_eq A B = Some true.
+Proof.
+  intros A B SA SB Hp Hi Hc H. apply lat_eq_true_iff; try assumption. repeat split; try assumption.
+  revert H Hp. generalize (n_vertices A) as nv. generalize (l_pos B) as Q. generalize (l_pos A) as P.
+  induction P as [|a P IH]; destruct Q as [|b Q]; simpl; intros nv H E; try discriminate; constructor.
+  - apply (H 0%nat). lia.
+  - apply IH; [|lia]. intros i Hi'. apply (H (S i)). lia.
+Qed.
+
+(* without the shape test of fix 8051f8a the comparison raises on lattices of different sizes *)
+Lemma lat_eq_noshape_total_refuted :
+  exists A B, wf_lat A = true /\ wf_lat B = true /\ lat_eq_noshape A B = None.
+Proof.
+  exists (mkLat [(1#4, 1#4); (3#4, 1#4)]%Q F64 [(0, 1)] I64 [(0, 0)] I64 fresh_cache).
+  exists (mkLat [(1#4, 1#4); (3#4, 1#4); (1#2, 3#4)]%Q F64 [(0, 1); (1, 2); (2, 0)] I64 [(0, 0); (0, 0); (0, 0)] I64 fresh_cache).
+  repeat split; vm_compute; reflexivity.
+Qed.
+
+(* ---------------------------------------------------------------- round trip compares equal *)
+Lemma within_of_err : forall nv a b e,
+  (0 <= e)%Q -> (Qabs (fst a - fst b) <= e)%Q -> (Qabs (snd a - snd b) <= e)%Q ->
+  (0 <= inject_Z (10000 * nv))%Q -> (2 * e * e * inject_Z (10000 * nv) <= 1)%Q -> within nv a b.
+Proof.
+  intros nv a b e He Hx Hy HK H. unfold within, dist2.
+  set (dx := (fst a - fst b)%Q) in *. set (dy := (snd a - snd b)%Q) in *. set (K := inject_Z (10000 * nv)) in *.
+  apply Qabs_Qle_condition in Hx, Hy. destruct Hx as [Hx1 Hx2]. destruct Hy as [Hy1 Hy2].
+  assert (0 <= (e - dx) * (e + dx))%Q as Px by (apply Qmult_le_0_compat; lra).
+  assert (0 <= (e - dy) * (e + dy))%Q as Py by (apply Qmult_le_0_compat; lra).
+  setoid_replace ((e - dx) * (e + dx))%Q with (e * e - dx * dx)%Q in Px by ring.
+  setoid_replace ((e - dy) * (e + dy))%Q with (e * e - dy * dy)%Q in Py by ring.
+  clearbody dx dy K.
+  assert (dx * dx <= e * e)%Q as Sx by (apply Qle_minus_iff; exact Px).
+  assert (dy * dy <= e * e)%Q as Sy by (apply Qle_minus_iff; exact Py).
+  clear Px Py.
+  set (sx := (dx * dx)%Q) in *. set (sy := (dy * dy)%Q) in *.
+  eapply Qle_trans; [|exact H].
+  apply Qmult_le_compat_r; [|assumption].
+  setoid_replace (2 * e * e)%Q with (e * e + e * e)%Q by ring.
+  apply Qplus_le_compat; assumption.
+Qed.
+
+Definition pos_in_box (p : qpair) : Prop := (Qabs (fst p) <= 2 /\ Qabs (snd p) <= 2)%Q.
+
+Lemma within_round32 : forall nv p, 0 <= nv -> 20000 * nv <= 2 ^ 46 -> pos_in_box p -> within nv p (round32_2 p).
+Proof.
+  intros nv p H0 HV [Hx Hy].
+  apply (within_of_err nv p (round32_2 p) (Qpow2 (-23))).
+  - discriminate.
+  - unfold round32_2. simpl fst.
+    setoid_replace (fst p - round32 (fst p))%Q with (- (round32 (fst p) - fst p))%Q by ring.
+    rewrite Qabs_opp. apply round32_err_le2. assumption.
+  - unfold round32_2. simpl snd.
+    setoid_replace (snd p - round32 (snd p))%Q with (- (round32 (snd p) - snd p))%Q by ring.
+    rewrite Qabs_opp. apply round32_err_le2. assumption.
+  - unfold Qle, inject_Z. cbn [Qnum Qden]. lia.
+  - change (Qpow2 (-23)) with (1 # 8388608)%Q. change (2 ^ 46) with 70368744177664 in HV.
+    unfold Qle, Qmult, inject_Z. cbn [Qnum Qden]. lia.
+Qed.
+
+Lemma roundtrip_eq : forall L,
+  wf_lat L = true ->
+  20000 * n_vertices L <= 2 ^ 46 ->
+  (forall p, In p (l_pos L) -> pos_in_box p) ->
+  lat_eq L (restored_of L) = Some true /\ lat_eq (restored_of L) L = Some true.
+Proof.
+  intros L W HV HB.
+  assert (shaped L) as SL.
+  { unfold wf_lat in W. rewrite !andb_true_iff in W. destruct W as [[[W _] _] _]. apply Nat.eqb_eq in W. exact W. }
+  assert (shaped (restored_of L)) as SR by exact SL.
+  assert (lat_eq L (restored_of L) = Some true) as E.
+  { apply lat_eq_true_iff; try assumption. unfold restored_of; simpl.
+    rewrite map_length. repeat split.
+    assert (0 <= n_vertices L) as N by (unfold n_vertices; lia).
+    revert HB. generalize (n_vertices L) N HV. intros nv N0 N1.
+    induction (l_pos L) as [|p P IH]; simpl; intros HB; constructor.
+    - apply within_round32; [assumption|assumption|apply HB; left; reflexivity].
+    - apply IH. intros q Hq. apply HB. right. assumption. }
+  split; [exact E|]. rewrite lat_eq_sym. exact E.
+Qed.
+
+Lemma box_of_interval : forall p : qpair,
+  (-1 <= fst p <= 2)%Q -> (-1 <= snd p <= 2)%Q -> pos_in_box p.
+Proof.
+  intros p [H1 H2] [H3 H4]. split; apply Qabs_Qle_condition; split; lra.
+Qed.
+
 (* ---------------------------------------------------------------- legacy dict state *)
 Lemma setstate_dict : forall L, setstate (DictState L) = L.
 Proof. reflexivity. Qed.
+
+Lemma legacy_dict_eq : forall L, shaped L ->
+  lat_eq L (setstate (DictState L)) = Some true /\ lat_eq (setstate (DictState L)) L = Some true.
+Proof. intros L S. rewrite setstate_dict. split; apply lat_eq_refl; assumption. Qed.
+
+(* ---------------------------------------------------------------- statements in the form used by Props/C09.v *)
+Lemma roundtrip_values_spec : forall L,
+  wf_lat L = true ->
+  n_vertices L <= dt_max U64 ->
+  forallb (in_range2 I64) (l_idx L) = true ->
+  forallb (in_range2 I8) (l_cross L) = true ->
+  existsb overflows2 (l_pos L) = false ->
+  exists R, roundtrip L = Some R /\
+    l_idx R = l_idx L /\ l_cross R = l_cross L /\ l_pos R = map round32_2 (l_pos L) /\
+    l_pos_dt R = F32 /\ l_idx_dt R = I64 /\ l_cross_dt R = I64 /\ l_cache R = fresh_cache.
+Proof.
+  intros L W HV HI HC HO. exists (restored_of L). split; [apply roundtrip_values; assumption|].
+  repeat split.
+Qed.
+
+Lemma roundtrip_some_inv : forall L R,
+  wf_lat L = true -> n_vertices L <= dt_max I64 -> roundtrip L = Some R -> R = restored_of L.
+Proof.
+  intros L R W HV E.
+  assert (roundtrip L <> None) as NN by congruence.
+  rewrite roundtrip_none_iff in NN.
+  assert (n_vertices L <= dt_max U64) as HV' by (simpl in *; lia).
+  destruct (forallb (in_range2 I8) (l_cross L)) eqn:HC; [|tauto].
+  destruct (existsb overflows2 (l_pos L)) eqn:HO; [tauto|].
+  assert (forallb (in_range2 I64) (l_idx L) = true) as HI.
+  { unfold wf_lat in W. rewrite !andb_true_iff in W. destruct W as [[[_ Wi] _] _].
+    rewrite forallb_forall in *. intros [a b] Hp. specialize (Wi _ Hp).
+    unfold wf_index, in_range2, in_range in *. simpl in *. lia. }
+  rewrite (roundtrip_values L W HV' HI HC HO) in E. congruence.
+Qed.
+
+Lemma roundtrip_eq_spec : forall L R,
+  wf_lat L = true ->
+  20000 * n_vertices L <= 2 ^ 46 ->
+  (forall p, In p (l_pos L) -> (-1 <= fst p <= 2)%Q /\ (-1 <= snd p <= 2)%Q) ->
+  roundtrip L = Some R ->
+  lat_eq L R = Some true /\ lat_eq R L = Some true /\
+  py_ne L (PyLattice R) = Some false /\ py_ne R (PyLattice L) = Some false.
+Proof.
+  intros L R W HV HB E.
+  assert (n_vertices L <= dt_max I64) as HV' by (change (2 ^ 46) with 70368744177664 in HV; simpl; lia).
+  rewrite (roundtrip_some_inv L R W HV' E).
+  destruct (roundtrip_eq L W HV) as [E1 E2].
+  { intros p Hp. destruct (HB p Hp). apply box_of_interval; assumption. }
+  unfold py_ne, py_eq. rewrite E1, E2. repeat split.
+Qed.
+
+Lemma py_eq_sym : forall A B, py_eq A (PyLattice B) = py_eq B (PyLattice A).
+Proof. intros. simpl. apply lat_eq_sym. Qed.
+
+(* ---------------------------------------------------------------- float32 numbers are fixed points *)
+Lemma Qpow2_nonneg_inject : forall k, 0 <= k -> Qpow2 k = inject_Z (2 ^ k).
+Proof. intros k H. unfold Qpow2. destruct (Z.leb_spec 0 k); [reflexivity|lia]. Qed.
+
+Lemma Qpow2_num_pos : forall e, 0 < Qnum (Qpow2 e).
+Proof.
+  intros e. unfold Qpow2. destruct (Z.leb_spec 0 e); simpl; [apply pow2_pos; assumption|lia].
+Qed.
+
+Lemma rneQ_of_int : forall (m : Q) k, (m == inject_Z k)%Q -> rneQ m = k.
+Proof.
+  intros [n d] k H. unfold Qeq, inject_Z in H. simpl in H. unfold rneQ. simpl.
+  replace n with (k * Z.pos d) by lia. apply rne_exact. lia.
+Qed.
+
+Lemma Qpow2_lt_exp : forall a b (x : Q), (Qpow2 a <= x)%Q -> (x < Qpow2 b)%Q -> a < b.
+Proof.
+  intros a b x H1 H2. destruct (Z.lt_ge_cases a b) as [|Hge]; [assumption|exfalso].
+  pose proof (Qpow2_le b a Hge). apply (Qlt_irrefl x).
+  eapply Qlt_le_trans; [exact H2|]. eapply Qle_trans; eassumption.
+Qed.
+
+Lemma round32_fixed : forall m e : Z, Z.abs m < 2 ^ 24 -> -149 <= e ->
+  (round32 (inject_Z m * Qpow2 e) == inject_Z m * Qpow2 e)%Q.
+Proof.
+  intros m e Hm He. set (x := (inject_Z m * Qpow2 e)%Q).
+  unfold round32.
+  assert (Qnum x = m * Qnum (Qpow2 e)) as Nx by reflexivity.
+  pose proof (Qpow2_num_pos e) as Pp.
+  destruct (Z.eqb_spec (Qnum x) 0) as [Hz|Hz].
+  - assert (m = 0) by nia. subst m. unfold x. ring.
+  - assert (m <> 0) as Hm0 by nia.
+    set (q := f32_qexp x).
+    assert (q <= e) as Hq.
+    { unfold q, f32_qexp.
+      pose proof (ilog2_frac_lower (Z.abs (Qnum x)) (Zpos (Qden x)) ltac:(lia) ltac:(lia)) as L.
+      apply pow2_le_Q in L; [|assumption].
+      assert (Qabs x < Qpow2 (24 + e))%Q as U.
+      { unfold x. rewrite Qabs_Qmult, (Qabs_pos (Qpow2 e)) by (apply Qlt_le_weak, Qpow2_pos).
+        rewrite Qpow2_add. apply Qmult_lt_r; [apply Qpow2_pos|].
+        rewrite (Qpow2_nonneg_inject 24) by lia. unfold Qabs, inject_Z, Qlt. simpl Qnum. simpl Qden. lia. }
+      pose proof (Qpow2_lt_exp _ _ _ L U). lia. }
+    assert (x * Qpow2 (- q) == inject_Z (m * 2 ^ (e - q)))%Q as Hint.
+    { unfold x. rewrite <- Qmult_assoc, <- Qpow2_add.
+      replace (e + - q) with (e - q) by lia.
+      rewrite (Qpow2_nonneg_inject (e - q)) by lia. rewrite inject_Z_mult. reflexivity. }
+    rewrite (rneQ_of_int _ _ Hint).
+    rewrite inject_Z_mult, <- (Qpow2_nonneg_inject (e - q)) by lia.
+    rewrite <- Qmult_assoc, <- Qpow2_add. replace (e - q + q) with e by lia. reflexivity.
+Qed.
+
+(* positions that are numerically float32 numbers survive the round trip numerically unchanged *)
+Definition qpair_eq (a b : qpair) : Prop := (fst a == fst b /\ snd a == snd b)%Q.
+
+Lemma roundtrip_f32_exact_Q : forall L,
+  (forall p, In p (l_pos L) -> qpair_eq (round32_2 p) p) -> Forall2 qpair_eq (l_pos (restored_of L)) (l_pos L).
+Proof.
+  intros L H. unfold restored_of. simpl. induction (l_pos L) as [|p P IH]; simpl; constructor.
+  - apply H. left. reflexivity.
+  - apply IH. intros q Hq. apply H. right. assumption.
+Qed.
+
+Lemma roundtrip_exact_on_float32_spec : forall L R,
+  wf_lat L = true -> n_vertices L <= dt_max I64 -> roundtrip L = Some R ->
+  (forall p, In p (l_pos L) -> qpair_eq (round32_2 p) p) ->
+  Forall2 qpair_eq (l_pos R) (l_pos L) /\ l_idx R = l_idx L /\ l_cross R = l_cross L.
+Proof.
+  intros L R W HV E H. rewrite (roundtrip_some_inv L R W HV E).
+  split; [apply roundtrip_f32_exact_Q; assumption|]. split; reflexivity.
+Qed.
+
+(* ---------------------------------------------------------------- round trip compares equal, any box 2^k *)
+Lemma within_round32_pow2 : forall nv p k, 0 <= nv -> 0 <= k -> 20000 * nv * 4 ^ k <= 2 ^ 48 ->
+  (Qabs (fst p) <= Qpow2 k)%Q -> (Qabs (snd p) <= Qpow2 k)%Q -> within nv p (round32_2 p).
+Proof.
+  intros nv p k H0 Hk HV Hx Hy.
+  apply (within_of_err nv p (round32_2 p) (Qpow2 (k - 24))).
+  - apply Qlt_le_weak, Qpow2_pos.
+  - unfold round32_2. simpl fst.
+    setoid_replace (fst p - round32 (fst p))%Q with (- (round32 (fst p) - fst p))%Q by ring.
+    rewrite Qabs_opp. pose proof (round32_err_pow2 (fst p) k Hk Hx) as E.
+    rewrite Z.max_l in E by lia. exact E.
+  - unfold round32_2. simpl snd.
+    setoid_replace (snd p - round32 (snd p))%Q with (- (round32 (snd p) - snd p))%Q by ring.
+    rewrite Qabs_opp. pose proof (round32_err_pow2 (snd p) k Hk Hy) as E.
+    rewrite Z.max_l in E by lia. exact E.
+  - unfold Qle, inject_Z. cbn [Qnum Qden]. lia.
+  - setoid_replace (2 * Qpow2 (k - 24) * Qpow2 (k - 24) * inject_Z (10000 * nv))%Q
+      with (inject_Z (20000 * nv * 4 ^ k) * Qpow2 (-48))%Q.
+    + change (Qpow2 (-48)) with (1 # 281474976710656)%Q. change (2 ^ 48) with 281474976710656 in HV.
+      unfold Qle, Qmult, inject_Z. cbn [Qnum Qden]. lia.
+    + replace (k - 24) with (k + -24) by lia. rewrite Qpow2_add.
+      rewrite (Qpow2_nonneg_inject k) by lia.
+      replace (4 ^ k) with (2 ^ k * 2 ^ k).
+      2:{ change 4 with (2 * 2). rewrite Z.pow_mul_l. reflexivity. }
+      replace (20000 * nv * (2 ^ k * 2 ^ k)) with (2 * (2 ^ k * 2 ^ k) * (10000 * nv)) by ring.
+      rewrite !inject_Z_mult.
+      change (Qpow2 (-48)) with (Qpow2 (-24) * Qpow2 (-24))%Q. ring.
+Qed.
+
+Lemma roundtrip_eq_pow2 : forall L R k,
+  wf_lat L = true -> 0 <= k ->
+  20000 * n_vertices L * 4 ^ k <= 2 ^ 48 ->
+  (forall p, In p (l_pos L) -> (Qabs (fst p) <= Qpow2 k)%Q /\ (Qabs (snd p) <= Qpow2 k)%Q) ->
+  roundtrip L = Some R ->
+  lat_eq L R = Some true /\ lat_eq R L = Some true.
+Proof.
+  intros L R k W Hk HV HB E.
+  assert (0 < 4 ^ k) by (apply Z.pow_pos_nonneg; lia).
+  assert (n_vertices L <= dt_max I64) as HV'.
+  { change (2 ^ 48) with 281474976710656 in HV. simpl. nia. }
+  rewrite (roundtrip_some_inv L R W HV' E).
+  assert (shaped L) as SL.
+  { unfold wf_lat in W. rewrite !andb_true_iff in W. destruct W as [[[W _] _] _]. apply Nat.eqb_eq in W. exact W. }
+  assert (lat_eq L (restored_of L) = Some true) as EQ.
+  { apply lat_eq_true_iff; try assumption. unfold restored_of; simpl.
+    rewrite map_length. repeat split.
+    assert (0 <= n_vertices L) as N by (unfold n_vertices; lia).
+    revert HB. generalize (n_vertices L) N HV. intros nv N0 N1.
+    induction (l_pos L) as [|p P IH]; simpl; intros HB; constructor.
+    - destruct (HB p (or_introl eq_refl)). apply (within_round32_pow2 nv p k); assumption.
+    - apply IH. intros q Hq. apply HB. right. assumption. }
+  split; [exact EQ|]. rewrite lat_eq_sym. exact EQ.
+Qed.
